@@ -361,6 +361,26 @@ def c10_require(agg):
     return need
 
 
+# ------------------------------------------------------------------ C11
+
+def c11_plan(tier, seed):
+    q = tier == "quick"
+    out = jobs("os-debug", "c11", 9 if q else 24, None, {"programs": 40 if q else 1200}, timeout=3000)
+    out += jobs("os-release", "c11", 4 if q else 12, None, {"programs": 40 if q else 1200}, timeout=3000)
+    out += jobs("memfd-debug", "c11", 3 if q else 8, None, {"programs": 40 if q else 1200}, timeout=3000)
+    return out
+
+
+def c11_require(agg):
+    st = agg["stats"]
+    need = []
+    for k, n in (("programs", 300), ("failing_operations", 100), ("cloexec_checked_descriptors", 1000), ("unrelated_children_spawned", 10),
+                 ("pest_descriptor_churn", 10000)):
+        if st.get(k, 0) < n:
+            need.append("%s < %d" % (k, n))
+    return need
+
+
 # ------------------------------------------------------------------ C19
 
 def c19_plan(tier, seed):
@@ -414,6 +434,21 @@ NOTES = ("Runtime monitoring and sanitizers. ./check <id> rebuilds the harness (
 NOT_APPLICABLE = {}
 
 PROPS = {
+    "C11": {
+        "plan": c11_plan,
+        "require": c11_require,
+        "level": "exploration",
+        "level_text": "Exploration: model-generated operation sequences of up to 400 operations over the public API - including connects to missing names, injected "
+                      "failures of socketpair/bind/listen/setsockopt and sends to closed receivers - run while a pest thread churns foreign descriptors; after every "
+                      "program, with every handle dropped, the descriptor table, shared mappings, TMPDIR and /dev/shm must equal the baseline; the interposer's ledger "
+                      "alarms on a close of a foreign descriptor, a close returning EBADF and a munmap whose length differs from the mmap; at seeded points every "
+                      "non-baseline descriptor must be close-on-exec and an exec'd unrelated child must see none. Debug, release and memfd builds.",
+        "level_note": "Leaks are judged at quiescent points against a post-warm-up baseline taken in the same process; the global ROUTER and lazily initialised "
+                      "library state are warmed up first. Router stop paths are exercised by C17.",
+        "technique": "runtime monitoring: /proc descriptor-table and mapping balance at quiescent points, LD_PRELOAD fd/mmap ledger with foreign-descriptor churn, FD_CLOEXEC and exec'd-child inheritance probes, fault-injected error paths",
+        "rule": "case = one operation sequence (20..400 operations); distinct = hash of the operation list; non-trivial = more than three operations executed",
+        "assumptions": ["descriptors at or above 1000 belong to the interposer's trace file", "leak detection is by balance, not by ownership tracking: a leak compensated by a wrong close would be seen by the ledger instead"],
+    },
     "C10": {
         "plan": c10_plan,
         "require": c10_require,
